@@ -25,7 +25,7 @@ MANIFEST = {
     'technique': 'solver-driven bounded exploration of schedules over the real Python code with a contract stub of the pool and an AST-level set-order abstraction (z3 decides every schedule choice; coverage certificate)',
 }
 
-BOUNDS = {'quick': {'schedule': 3, 'shuffle': 1, 'setorder': 1}, 'thorough': {'schedule': 4, 'shuffle': 1, 'setorder': 1}}
+BOUNDS = {'quick': {'schedule': 3, 'shuffle': 1, 'setorder': 1}, 'thorough': {'schedule': 4, 'shuffle': 1, 'setorder': 1, 'pairwise-schedule': 1}}
 INFO = {
     'engine': 'symx + z3 (schedule variables concretised by decisions) + real pandas + compiled kernel',
     'explanation': 'see level text',
@@ -186,6 +186,10 @@ def jobs(tier):
         for first in firsts:
             out.append({'cond': 'shuffle', 'mode': mode, 'pins': {'o0': first}, 'weight': 200, 'label': f'target_only={mode},first={first}'})
     out.append({'cond': 'setorder', 'pins': {}, 'weight': 100, 'label': 'focus set fa,fb,fc'})
+    if b.get('pairwise-schedule'):
+        # pairwise mode (13 tasks): the first two tasks to run and their workers are free, the rest follow in order on worker 0
+        for first in range(13):
+            out.append({'cond': 'schedule', 'workers': 2, 'ratio': 1.0, 'mode': 'False', 'pins': {'o0': first}, 'weight': 100, 'label': f'pairwise,first task={first}'})
     return out
 
 
@@ -211,8 +215,10 @@ def run_job(job):
         for i, v in enumerate(st['o']):
             ctx.assume(v >= 0, v <= ntask - 1 - i)
         st['w'] = [z3.Int(f'w{i}') for i in range(ntask)]
-        for v in st['w']:
-            ctx.assume(v >= 0, v < W)
+        for i, v in enumerate(st['w']):
+            ctx.assume(v >= 0, v < (W if i < nfree else 1))
+        if ntask > 4 and cond == 'schedule':
+            ctx.assume(st['o'][2] == 0)
         st['unordered'] = z3.Bool('unordered')
         for k, v in job['pins'].items():
             ctx.assume(z3.Int(k) == v)
